@@ -64,7 +64,7 @@ prop("C02",
            dict(name="h_list_huge", sources=["harness/h_list.c"], profile="plain0", args={"quick": ["--only=huge"], "thorough": ["--only=huge"]}),
            dict(name="h_list_la", sources=["harness/h_list.c"], profile="asan", tiers=["thorough"],
                 args={"quick": ["--S=5"], "thorough": ["--S=6"]})],
-     deadline={"quick": 200, "thorough": 3000})
+     deadline={"quick": 300, "thorough": 3000})
 
 
 prop("C03",
@@ -94,7 +94,7 @@ prop("C12",
           "num_words/get_word/get_pword for every index 0..num_words+2, each compared with the reference grammar; plus all join/split round trips of <= 4 plain tokens; "
           "non-trivial = inputs with a quote, a backslash or more than one token (counted per delimiter set)",
      bounds={"quick": "N=6 (299593 strings); again with the second letter replaced by 0xA0 and by 0x89", "thorough": "N=8 (19.2 M strings); with 0xA0 / 0x89 as the second letter at N=7"},
-     runs=[dict(name="h_tokens", sources=["harness/h_tokens.c"], profile="asan", args={"quick": ["--N=6"], "thorough": ["--N=8"]}),
+     runs=[dict(name="h_tokens", sources=["harness/h_tokens.c"], profile="asan", args={"quick": ["--N=6", "--hang-cpu=120"], "thorough": ["--N=8", "--hang-cpu=120"]}),      # the 70000-token cases take a minute of CPU: split and tok measure the rest of the input for every token
            dict(name="h_tokens_hbA0", binary="h_tokens", sources=["harness/h_tokens.c"], profile="asan", args={"quick": ["--N=6", "--hb=0xA0"], "thorough": ["--N=7", "--hb=0xA0"]}),
            dict(name="h_tokens_hb89", binary="h_tokens", sources=["harness/h_tokens.c"], profile="asan", args={"quick": ["--N=6", "--hb=0x89"], "thorough": ["--N=7", "--hb=0x89"]}),
            # the second letter replaced by the white-space characters a hand-written blank test forgets: vertical tab, form feed
@@ -214,7 +214,7 @@ prop("C08",
           "(pre-parse pass, then normal pass) and every target variable, guard word, handler call and the final argv are compared with the assignment computed from the items; "
           "part B: every vector of <= N hostile tokens x 4 settings: terminates (<= 1000 diagnostics), ASan clean, foreign bits and guard words untouched, argv a NULL-terminated sub-sequence; "
           "non-trivial = valid item sequences, and hostile vectors that raise the bad-option count",
-     bounds={"quick": "K=3 items (47 spellings), N=4 tokens (22 tokens)", "thorough": "K=4, N=5"},
+     bounds={"quick": "K=3 items (48 spellings), N=4 tokens (22 tokens)", "thorough": "K=4, N=5"},
      runs=[dict(name="h_opt", sources=["harness/h_opt.c"], profile="asan", wraps=["libast_print_error", "libast_print_warning"],
                 args={"quick": ["--K=3", "--N=4"], "thorough": ["--K=4", "--N=5"]})],
      deadline={"quick": 240, "thorough": 3000})
@@ -274,7 +274,7 @@ prop("C20",
      rule="for each build DEBUG in {undefined,0,1,2,3,4,5,9999} the probe program and the library are compiled with that DEBUG; every (macro probe x runtime level in {0..6,9999}) cell and every (output primitive x level x silent) cell runs in a child: "
           "bytes written to stderr, side-effect counters in the macro arguments/conditions, the return value, whether the function continued and the exit status must match the gate model; a condition whose text holds \"100%%\" keeps both percent signs in the diagnostic; thorough adds one real in-library statement per D_* family; "
           "non-trivial = every executed cell",
-     bounds={"quick": "10 builds x 31 probes x 8 levels x silent {off,TRUE,0x100} x history {fresh process, after four refused output calls}", "thorough": "same + 4 in-library statements per build"},
+     bounds={"quick": "10 builds x 31 probes x 10 levels (0..6, 9999, 0x80000000, 0xffffffff) x silent {off,TRUE,0x100} x history {fresh process, after four refused output calls}", "thorough": "same + 4 in-library statements per build"},
      runs=[dict(name="h_gate_" + b, sources=["harness/h_gate.c"], profile=b, args={"quick": ["--build=" + b], "thorough": ["--build=" + b]}) for b in _GATE_BUILDS],
      deadline={"quick": 300, "thorough": 1200})
 
@@ -302,5 +302,23 @@ for _pid in ("C01", "C02", "C03", "C04", "C05", "C06", "C07", "C08", "C09", "C10
         _extra.append(_d)
     _P["runs"] = _P["runs"] + _extra
     _P["bounds"] = {k: v + "; repeated at runtime debug level 9999" + (" (quick bounds)" if (k == "thorough" and _pid in _DL_THOROUGH_AT_QUICK) else "") for k, v in _P["bounds"].items()}
+
+# MemorySanitizer runs (clang -O0, library + harness + engine instrumented): the first (main) run of each property once more, quick bounds in both tiers;
+# every use of a value that was never initialised - a local read on a rarely taken path, a field a constructor forgot - is a violation wherever the
+# stack or heap contents happen to hide it in the other builds
+_MSAN = ("C01", "C02", "C03", "C04", "C05", "C07", "C08", "C09", "C10", "C11", "C12", "C13", "C14", "C17", "C18", "C19")
+for _pid in _MSAN:
+    _P = PROPS[_pid]
+    _r = _P["runs"][0]
+    _d = dict(_r)
+    _d["name"] = _r["name"] + "_msan"
+    _d["profile"] = "msan"
+    _d.pop("binary", None)
+    _q = list(_r.get("args", {}).get("quick", []))
+    if _pid == "C02":
+        _q = ["--S=4", "--lookahead=0"]          # the uninstrumented-memory question is settled at a smaller cap; the full alphabet stays
+    _d["args"] = {"quick": _q, "thorough": _q}
+    _P["runs"] = _P["runs"] + [_d]
+    _P["bounds"] = {k: v + "; main run repeated under MemorySanitizer (quick bounds%s)" % (", size cap 4" if _pid == "C02" else "") for k, v in _P["bounds"].items()}
 
 NOT_CLAIMED = {}
